@@ -115,7 +115,24 @@ class Runner:
             reg = True if ok is True else 'broken'
         return {'evs': evs, 'cid': cid, 'name': name, 'region': reg}, exact
 
-    def run_history(self, src, hist, table):
+    def run_history(self, src, hist, table, tz=None):
+        """tz: the process's local time zone during the history (catalog times are UTC whatever the zone of the machine)"""
+        if tz is None:
+            return self._run_history(src, hist, table)
+        import time
+        old = os.environ.get('TZ')
+        os.environ['TZ'] = tz
+        time.tzset()
+        try:
+            return self._run_history(src, hist, table)
+        finally:
+            if old is None:
+                os.environ.pop('TZ', None)
+            else:
+                os.environ['TZ'] = old
+            time.tzset()
+
+    def _run_history(self, src, hist, table):
         import csep
         from csep.core.catalogs import CSEPCatalog
         cat = self.make(src, table)
@@ -166,6 +183,9 @@ class Runner:
             proj, exact = self.project(cat, table, src)
             steps.append({'op': op, 'obj': proj, 'exact': exact})
         return steps
+
+
+ZONES = [None, None, 'JST-9', 'EST5EDT,M3.2.0,M11.1.0']      # local time zones the histories run under (None = as started)
 
 
 def normalise(src, steps):
@@ -220,9 +240,10 @@ def run(chk, replay=None):
         src = fix_src(case['src'])
         variant = rng.randrange(5)
         table = {e: typed_event(e, variant, chk.seed) for e in range(1, 7)}
-        steps = R.run_history(src, case['hist'], table)
+        tz = rng.choice(ZONES)
+        steps = R.run_history(src, case['hist'], table, tz)
         traces.append({'src': src, 'steps': [{'op': s['op'], 'obj': s['obj'], 'exact': s['exact']} for s in steps]})
-        metas.append({'src': src, 'hist': case['hist'], 'variant': variant, 'steps': steps})
+        metas.append({'src': src, 'hist': case['hist'], 'variant': variant, 'steps': steps, 'tz': tz})
         if any(op in case['hist'] for op in ('load_ascii', 'from_dict', 'load_json', 'from_df')):
             chk.nontrivial('%s|%s' % (src, case['hist']))
     # random large catalogs, single round trips
@@ -233,9 +254,10 @@ def run(chk, replay=None):
         src = {'evs': list(range(1, n + 1)), 'cid': rng.choice([-1, 0, 42, -12345]), 'name': rng.choice([-1, 3]), 'region': rng.random() < 0.5}
         hist = rng.choice([['write', 'load_ascii'], ['write_noheader', 'append', 'load_ascii'], ['to_dict', 'from_dict'],
                            ['write_json', 'load_json'], ['to_df', 'from_df'], ['write', 'load_ascii', 'write_json', 'load_json', 'to_df', 'from_df']])
-        steps = R.run_history(src, hist, table)
+        tz = ZONES[t % len(ZONES)]
+        steps = R.run_history(src, hist, table, tz)
         traces.append({'src': src, 'steps': [{'op': s['op'], 'obj': s['obj'], 'exact': s['exact']} for s in steps]})
-        metas.append({'src': {k: (v if k != 'evs' else len(v)) for k, v in src.items()}, 'hist': hist, 'variant': t, 'steps': [dict(s, obj=dict(s['obj'], evs=len(s['obj']['evs']))) for s in steps]})
+        metas.append({'src': {k: (v if k != 'evs' else len(v)) for k, v in src.items()}, 'hist': hist, 'variant': t, 'tz': tz, 'steps': [dict(s, obj=dict(s['obj'], evs=len(s['obj']['evs']))) for s in steps]})
         chk.nontrivial('rand|%d|%s' % (n, hist))
     # the loader's placeholder for a missing id (-1) and None are the same abstract value; regions projected as booleans
     for tr in traces:
@@ -259,7 +281,8 @@ def run(chk, replay=None):
         empty = (m['src']['evs'] == [] or m['src']['evs'] == 0)
         why = 'raised %s' % st['raised'].split(':')[0] if 'raised' in st else ('fields not bit-identical' if st['exact'] == 0 else 'object differs')
         chk.violation('%s:%s:%s' % (st['op'], why, 'empty-catalog' if empty else 'non-empty'),
-                      {'source': m['src'], 'history': m['hist'], 'first_unexplained_step': st, 'variant': m['variant']})
+                      {'source': m['src'], 'history': m['hist'], 'first_unexplained_step': st, 'variant': m['variant'],
+                       'local_time_zone': m.get('tz')})
     chk.sample({'history': metas[5]['hist'], 'source': metas[5]['src'], 'steps': traces[5]['steps']})
     chk.sample({'typed_event_examples': [list(map(str, typed_event(e, 0, chk.seed)))[:3] for e in (2, 3, 5)]})
     chk.exhaustive = True
